@@ -329,8 +329,11 @@ func (p *e2ePeer) RequestHeadersByNumber(origin uint64, amount int, skip int, re
 				j := y % len(hdrs)
 				hdrs = append(append([]*types.Header(nil), hdrs[:j]...), hdrs[j+1:]...)
 			} else {
+				// a forged header must not be a well-formed sibling (same number, same parent): the
+				// downloader does not judge header content in full sync, it follows what the master
+				// serves, so such a block would legitimately reach the importer. Break the linkage.
 				fh := types.CopyHeader(hdrs[0])
-				fh.Extra = []byte{byte(y)}
+				fh.ParentHash = common.BytesToHash([]byte{0xde, 0xad, byte(y), byte(y >> 8)})
 				hdrs = []*types.Header{fh}
 			}
 		case 3:
@@ -675,8 +678,8 @@ func runE2ECase(c *kit.Ctx, id string) {
 	var outcomes []string
 	finish := func(sig string) {
 		c.Max("max_e2e_process_stall_ms", int64(mon.worstStall()/time.Millisecond))
-		keys := make([]string, 0, len(h.counts))
 		h.mu.Lock()
+		keys := make([]string, 0, len(h.counts))
 		for k := range h.counts {
 			keys = append(keys, k)
 		}
